@@ -455,6 +455,170 @@ const HAND_META: [&str; 12] = [
     "/a./{tail}*",
 ];
 
+/// Second alphabet for the metacharacter definitions: one metacharacter (`.`) and "wildcard
+/// victims" (`X`, `1`, `a`) that an un-escaped `.`, `+`, `?`, `*`, `|`, group or class would accept.
+const SIGMA_VICTIM: [u8; 5] = [b'/', b'a', b'.', b'X', b'1'];
+
+/// Literal pieces containing regex metacharacters (no braces, none ends with `*`, which would be
+/// tail syntax).  Every one of `. + * ? | ( ) [ ] ^ $ \` occurs, alone and next to ordinary text
+/// that an un-escaped operator would act on.
+const META_LITS: [&str; 30] = [
+    ".", "a.X", "a.", ".a", "1.1", "..", "a+X", "a+", "+", "a*X", "*a", "a?X", "a?", "?", "a|X", "|", "(a)", "(a", ")", "a)", "[a1]", "[a1]X", "[", "]a", "^a", "a^", "a$", "$a",
+    "a\\X", "\\",
+];
+
+fn lit(s: &str) -> Elem {
+    Elem::Lit(s.to_string())
+}
+fn var(n: &str) -> Elem {
+    Elem::Var { name: n.to_string(), class: SEG }
+}
+
+/// Definitions that put each metacharacter literal into EVERY literal position of the grammar:
+/// leading (before the first dynamic segment), between two dynamic segments, trailing (after the
+/// last dynamic segment, glued to it and as a segment of its own), before a tail, whole static
+/// pattern (alone and as a member of a pattern list, first and later member) — each as full and
+/// as prefix definition.
+fn meta_defs() -> Vec<Def> {
+    let mut out = vec![];
+    let both = |elems: Vec<Elem>, out: &mut Vec<Def>| {
+        let p = Pattern { elems };
+        out.push(Def::one(p.clone(), false));
+        out.push(Def::one(p, true));
+    };
+    for l in META_LITS {
+        let sl = format!("/{l}");
+        // leading
+        both(vec![lit(&sl), var("x")], &mut out);
+        both(vec![lit(&sl), lit("/"), var("x")], &mut out);
+        // between two dynamic segments
+        both(vec![lit("/"), var("x"), lit(l), var("y")], &mut out);
+        // trailing, glued to the last dynamic segment / as its own segment / in the middle of text
+        both(vec![lit("/"), var("x"), lit(l)], &mut out);
+        both(vec![lit("/"), var("x"), lit(&sl)], &mut out);
+        both(vec![lit("/"), var("x"), lit(&format!("{l}a"))], &mut out);
+        both(vec![lit("/"), var("x"), lit("/"), var("y"), lit(&format!("-{l}"))], &mut out);
+        // before a tail (full only)
+        out.push(Def::one(Pattern { elems: vec![lit(&sl), lit("/"), Elem::Tail { name: "tail".into() }] }, false));
+        // whole static pattern
+        both(vec![lit(&sl)], &mut out);
+        // static member of a list: first, later, both
+        for prefix in [false, true] {
+            out.push(Def { pats: vec![Pattern { elems: vec![lit(&sl)] }, Pattern { elems: vec![lit("/"), var("x"), lit(&sl)] }], prefix });
+            out.push(Def { pats: vec![Pattern { elems: vec![lit("/1/"), var("x")] }, Pattern { elems: vec![lit(&sl)] }], prefix });
+            out.push(Def { pats: vec![Pattern { elems: vec![lit(&sl)] }, Pattern { elems: vec![lit(&format!("/a{l}"))] }], prefix });
+        }
+    }
+    // normalise through the pattern syntax (adjacent literals merge) and drop what the restricted
+    // grammar cannot express
+    out.into_iter()
+        .filter_map(|d| {
+            let srcs = d.sources();
+            if srcs.iter().any(|s| s.ends_with('*') && !s.ends_with("}*")) {
+                return None;
+            }
+            Def::parse(&srcs, d.prefix)
+        })
+        .collect()
+}
+
+/// For every member pattern of every metacharacter definition: the paths built from values of
+/// the dynamic parts (they contain the literal exactly: must match), and every one-byte variant of
+/// such a path — each byte replaced by `X`, `a`, `1`, `.`, `/`, deleted, or preceded by an inserted
+/// `a` — which covers "differs exactly at the metacharacter position by another byte, by a `/`,
+/// or by nothing" (must not match unless the variant is in the language for another reason; the
+/// reference matcher decides).
+fn phase_meta_positions(ctx: &Ctx, rep: &mut Reporter, defs: &[Def]) {
+    const VALS: [&str; 4] = ["a", "1X", "a.1", "X"];
+    let mut loc = Local::new();
+    for (di, def) in defs.iter().enumerate() {
+        if !ctx.mine(di as u64) {
+            continue;
+        }
+        if ctx.out_of_time() {
+            rep.inconclusive("metacharacter position phase cut by the time budget");
+            break;
+        }
+        let rdef = match build_rdef(rep, def) {
+            Some(r) => r,
+            None => continue,
+        };
+        let mut outs = vec![];
+        let mut bad = 0;
+        for pat in &def.pats {
+            let nvars = pat.names().len();
+            let combos = VALS.len().pow(nvars.min(3) as u32);
+            for code in 0..combos {
+                let mut c = code;
+                let mut exact = String::new();
+                for e in &pat.elems {
+                    match e {
+                        Elem::Lit(l) => exact.push_str(l),
+                        Elem::Var { .. } => {
+                            exact.push_str(VALS[c % VALS.len()]);
+                            c /= VALS.len();
+                        }
+                        Elem::Tail { .. } => exact.push_str(["", "a/b", "."][code % 3]),
+                    }
+                }
+                // (a) the literal exactly: the pattern language contains this path by construction
+                loc.bump("meta:exact-literal-paths");
+                match run_case(rep, &mut loc, "meta-exact", def, &rdef, &exact, &mut outs) {
+                    Some(Outcome::NoMatch) => {
+                        rep.violation(
+                            "model-gap",
+                            &format!("{} exact", def_sig(def)),
+                            &format!("path {:?} built from the pattern's own pieces is rejected by model and router alike", exact),
+                            json!({"phase": "match", "def": def_json(def), "path": esc(exact.as_bytes())}),
+                        );
+                    }
+                    Some(_) => {}
+                    None => bad += 1,
+                }
+                // (b) every one-byte variant
+                let b = exact.as_bytes();
+                let mut variants: Vec<Vec<u8>> = vec![];
+                for i in 0..b.len() {
+                    for r in [b'X', b'a', b'1', b'.', b'/'] {
+                        if b[i] != r {
+                            let mut v = b.to_vec();
+                            v[i] = r;
+                            variants.push(v);
+                        }
+                    }
+                    let mut v = b.to_vec();
+                    v.remove(i);
+                    variants.push(v);
+                    let mut v = b.to_vec();
+                    v.insert(i, b'a');
+                    variants.push(v);
+                }
+                for v in variants {
+                    if bad >= 3 {
+                        break;
+                    }
+                    let v = match String::from_utf8(v) {
+                        Ok(v) => v,
+                        Err(_) => continue,
+                    };
+                    loc.bump("meta:one-byte-variants");
+                    match run_case(rep, &mut loc, "meta-variant", def, &rdef, &v, &mut outs) {
+                        Some(Outcome::NoMatch) => loc.bump("meta:one-byte-variants-rejected"),
+                        Some(_) => {}
+                        None => bad += 1,
+                    }
+                }
+            }
+        }
+        let shape = def.shape();
+        for o in outs {
+            rep.sig(&format!("M|{}|{}|{}", shape, def.pats.len(), outcome_tag(o)));
+        }
+        loc.flush(rep);
+    }
+    loc.flush(rep);
+}
+
 fn all_paths_over(sigma: &[u8], max_len: usize) -> Vec<String> {
     let mut out = vec![String::new()];
     let mut start = 0;
@@ -1494,6 +1658,10 @@ pub fn run(ctx: &Ctx, rep: &mut Reporter) {
         let _ = rep;
     };
     // long paths first: they are the part a time budget must never cut
+    // first, because it is small and must never be cut by the budget
+    let mdefs = meta_defs();
+    phase_meta_positions(ctx, rep, &mdefs);
+    lap(rep, "phase_meta_positions");
     phase_long(ctx, rep, ctx.share(12_000, 400_000));
     lap(rep, "phase_long");
     phase_quoter(ctx, rep, if ctx.thorough() { 7 } else { 6 }, ctx.share(400_000, 6_000_000));
@@ -1522,6 +1690,15 @@ pub fn run(ctx: &Ctx, rep: &mut Reporter) {
         let mpaths = all_paths_over(&SIGMA_META, if ctx.thorough() { 7 } else { 6 });
         phase_exhaustive(ctx, rep, &meta, &mpaths);
         lap(rep, "phase_exhaustive(meta)");
+        // metacharacter literals in every literal position
+        if ctx.shard == 0 {
+            rep.count("defs:metacharacter-literal-positions", mdefs.len() as u64);
+            rep.sample("metachar-definition", json!({"patterns": mdefs[mdefs.len() / 3].sources(), "prefix": mdefs[mdefs.len() / 3].prefix}));
+        }
+        phase_roundtrip(ctx, rep, &mdefs, 60);
+        let vpaths = all_paths_over(&SIGMA_VICTIM, if ctx.thorough() { 8 } else { 7 });
+        phase_exhaustive(ctx, rep, &mdefs, &vpaths);
+        lap(rep, "phase_exhaustive(meta positions)");
     }
 
     if ctx.shard == 0 {
